@@ -9,8 +9,8 @@ OPK = {1: "RegisterNode", 2: "RemoveNode", 3: "RegisterPipeline", 4: "RemovePipe
 # which mismatch kinds (optionally restricted to operation kinds) speak about which property
 RELEVANT = {
     "C05": lambda k, op: k in ("KFrame", "KIsAny", "KIsAnySpec") or (k in ("KOk", "KErr") and op == 3),
-    "C06": lambda k, op: k in ("KInUse", "KClosed", "KDoubleClose", "KNodeSet") or (k in ("KOk",) and op in (2, 5)),
-    "C07": lambda k, op: k in ("KNodeObj", "KDeliv", "KPipes") or (k == "KOk" and op in (1, 3)),
+    "C06": lambda k, op: k in ("KInUse", "KClosed", "KDoubleClose", "KNodeSet") or (k in ("KOk", "KErr") and op in (2, 4, 5)),
+    "C07": lambda k, op: k in ("KNodeObj", "KDeliv", "KPipes") or (k in ("KOk", "KErr") and op in (1, 3)),
     "C20": lambda k, op: k == "KReopen",
     "C02": lambda k, op: k == "KThr" or (k in ("KOk", "KErr") and op in (6, 7)),
 }
